@@ -258,10 +258,15 @@ def run(ctx):
     from .c04 import check_framing
 
     report.share(ctx, "C20.T3", check_framing)
+    # ... and the sending side of segmentation: a block above the packet size is cut into consecutive packets that cover it
+    # exactly and are written in order (C10.P3)
+    from .c10 import check_process_send_queue
+
+    report.share(ctx, "C20.T3", check_process_send_queue)
     # "reach communication again after disable/enable": the select handshake answers before it changes state (C05.P1)
     from .c05 import check_control
 
-    report.share(ctx, "C20.T3", check_control, only={"C05.P3"})
+    report.share(ctx, "C20.T3", check_control, only={"C05.P1", "C05.P3"})
     # "after either side is disabled and re-enabled they reach communication again": disable() lowers the enabled flag
     # before it closes the link, so the closing link does not re-arm the connect thread (C09.W2)
     from .c09 import check_idle_and_disable
